@@ -11,10 +11,30 @@
    (6 <key> <msg>)                HMAC-SHA512                -> (<64 bytes>)
    (7 <bytes>)                    SHA-512                    -> (<64 bytes>)
    (8 k)                          compressed k*G, 0 < k < n  -> (<33 bytes>)
-   (9 <bytes>)                    ParsePubKey on 33 bytes    -> (1 x y) | (0)
-   (10 <seed> (i1 i2 ...))        NewMaster + Derive chain   -> (1 <priv 32> <chain code 32> <pub 33>) | (0) *)
+   (9 <bytes>)                    ParsePubKey (33/65 bytes)  -> (1 x y) | (0)
+   (10 <seed> (i1 i2 ...))        NewMaster + Derive chain   -> (1 <priv 32> <chain code 32> <pub 33>) | (0)
+   (11 k <P>)                     k*P, k >= 0 NOT reduced    -> (1 <33 bytes>) | (0) infinity
+   (12 <seed> (i1 i2 ...))        BIP32 text: master + CKDpriv chain -> as case 10
+   (13 k <P>)                     as 11 with the affine textbook double-and-add [pt_mul_affine]
+
+   C10, the secp256k1 instance of BDHKE.v / DLEQ.v (BDHKEsecp.v).  <P>, <A>, <B_>, <C_>, <K>, <C>
+   are serialised points that ParsePubKey accepts (else the case does not decode); scalars are
+   BYTE STRINGS as handed to secp256k1.PrivKeyFromBytes; points in observations are
+   SerializeCompressed (02 00..00 for infinity, as dcrd does); b is 0/1.
+   (20 <secret> <r>)              BlindMessage               -> (1 <B_>) | (0)
+   (21 <B_> <k>)                  SignBlindedMessage         -> (<C_>)
+   (22 <C_> <r> <K>)              UnblindSignature           -> (<C>)
+   (23 <secret> <k> <C>)          Verify                     -> (b)
+   (24 (<P> ...))                 HashE                      -> (<32 bytes>)
+   (25 <e> <s> <A> <B_> <C_>)     VerifyDLEQ                 -> (b)
+   (26 <a> <B_> <C_> <nonce>)     GenerateDLEQ, explicit r   -> (<e 32 bytes> <s 32 bytes>)
+   (27 D <secret> <Cstr> <A>)     nut12.VerifyProofDLEQ, D = () for DLEQ == nil, else
+                                  (<E> <S> <R>) strings      -> (b) | (2) panic
+   (28 <E> <S> <R> <A> <B_str> <C_str>)  nut12.VerifyBlindSignatureDLEQ -> (b)
+   (29 <bytes>)                   PrivKeyFromBytes.Serialize -> (<32 bytes>) *)
 From Coq Require Import ZArith List Bool.
 From Verif Require Import Sexp Bytes SHA256 SHA512 HMAC Secp256k1 BIP32 H2C KeysetId NUT13 KeysetGen.
+From Verif Require Import Group BDHKE DLEQ BDHKEsecp.
 Import ListNotations.
 Open Scope Z_scope.
 
@@ -33,6 +53,22 @@ Definition d_kentry (s : sexp) : option kentry :=
 
 Definition e_keypair (kp : keypair) : sexp :=
   L [A (fst (fst kp)); e_bytes (snd (fst kp)); e_bytes (snd kp)].
+
+(* a serialised point that ParsePubKey accepts *)
+Definition d_point (s : sexp) : option point :=
+  do b <- d_bytes s; match parse_pubkey b with Some xy => Some (Some xy) | None => None end.
+
+(* a scalar as PrivKeyFromBytes reads it *)
+Definition d_scalar (s : sexp) : option Z := do b <- d_bytes s; Some (scalar_of_bytes b).
+
+Definition e_point (P : point) : sexp := e_bytes (compress P).
+Definition e_bool (b : bool) : sexp := L [A (if b then 1 else 0)].
+
+Definition e_hd (k : option (list Z * list Z * list Z)) : sexp :=
+  match k with
+  | Some (priv, chain, pub) => L [A 1; e_bytes priv; e_bytes chain; e_bytes pub]
+  | None => L [A 0]
+  end.
 
 Definition run_crypto (c : sexp) : sexp :=
   match c with
@@ -82,7 +118,7 @@ Definition run_crypto (c : sexp) : sexp :=
       if (0 <? k) && (k <? secp_n) then e_bytes (pubkey_bytes k) else bad_case
   | L [A 9; b] =>
       match d_bytes b with
-      | Some bs => match decompress bs with
+      | Some bs => match parse_pubkey bs with
                    | Some (x, y) => L [A 1; A x; A y]
                    | None => L [A 0]
                    end
@@ -93,13 +129,114 @@ Definition run_crypto (c : sexp) : sexp :=
       | Some seed, Some path =>
           match hd_new_master seed with
           | Some m =>
-              match derive_path_impl hmac_sha512 pubkey_bytes secp_n m path with
-              | Some k => L [A 1; e_bytes (hd_priv_bytes k); e_bytes (snd k); e_bytes (hd_pub_bytes k)]
-              | None => L [A 0]
-              end
+              e_hd (option_map (fun k => (hd_priv_bytes k, snd k, hd_pub_bytes k))
+                      (derive_path_impl hmac_sha512 pubkey_bytes secp_n m path))
           | None => L [A 0]
           end
       | _, _ => bad_case
+      end
+  | L [A 11; A k; p] =>
+      match d_point p with
+      | Some P =>
+          if k <? 0 then bad_case
+          else match pt_mul k P with
+               | Some xy => L [A 1; e_point (Some xy)]
+               | None => L [A 0]
+               end
+      | None => bad_case
+      end
+  | L [A 13; A k; p] =>
+      match d_point p with
+      | Some P =>
+          if k <? 0 then bad_case
+          else match pt_mul_affine k P with
+               | Some xy => L [A 1; e_point (Some xy)]
+               | None => L [A 0]
+               end
+      | None => bad_case
+      end
+  | L [A 12; s; p] =>
+      match d_bytes s, sListZ p with
+      | Some seed, Some path =>
+          match bip32_master_spec seed with
+          | Some m =>
+              e_hd (option_map (fun k : skey => (be_bytes 32 (fst k), snd k, pubkey_bytes (fst k)))
+                      (bip32_path_spec m path))
+          | None => L [A 0]
+          end
+      | _, _ => bad_case
+      end
+  | L [A 20; sec; r] =>
+      match d_bytes sec, d_scalar r with
+      | Some secret, Some rk =>
+          match go_blind_message secret rk with
+          | Some B_ => L [A 1; e_point B_]
+          | None => L [A 0]
+          end
+      | _, _ => bad_case
+      end
+  | L [A 21; b; k] =>
+      match d_point b, d_scalar k with
+      | Some B_, Some kk => L [e_point (go_sign B_ kk)]
+      | _, _ => bad_case
+      end
+  | L [A 22; c_; r; k] =>
+      match d_point c_, d_scalar r, d_point k with
+      | Some C_, Some rk, Some K => L [e_point (go_unblind C_ rk K)]
+      | _, _, _ => bad_case
+      end
+  | L [A 23; sec; k; c0] =>
+      match d_bytes sec, d_scalar k, d_point c0 with
+      | Some secret, Some kk, Some C => e_bool (go_verify secret kk C)
+      | _, _, _ => bad_case
+      end
+  | L [A 24; L ps] =>
+      match opt_map d_point ps with
+      | Some pks => L [e_bytes (hash_e_bytes pks)]
+      | None => bad_case
+      end
+  | L [A 25; e; s; a; b; c_] =>
+      match d_scalar e, d_scalar s, d_point a, d_point b, d_point c_ with
+      | Some ek, Some sk, Some PA, Some B_, Some C_ => e_bool (go_verify_dleq ek sk PA B_ C_)
+      | _, _, _, _, _ => bad_case
+      end
+  | L [A 26; a; b; c_; nonce] =>
+      match d_scalar a, d_point b, d_point c_, d_scalar nonce with
+      | Some ak, Some B_, Some C_, Some nk =>
+          let es := go_generate_dleq ak B_ C_ nk in
+          L [e_bytes (scalar_bytes (fst es)); e_bytes (scalar_bytes (snd es))]
+      | _, _, _, _ => bad_case
+      end
+  | L [A 27; d; sec; cs; a] =>
+      let dleq :=
+        match d with
+        | L [] => Some None
+        | L [e; s; r] =>
+            match d_bytes e, d_bytes s, d_bytes r with
+            | Some eb, Some sb, Some rb => Some (Some (eb, sb, rb))
+            | _, _, _ => None
+            end
+        | _ => None
+        end in
+      match dleq, d_bytes sec, d_bytes cs, d_point a with
+      | Some dl, Some secret, Some Cstr, Some PA =>
+          match nut12_verify_proof_dleq dl secret Cstr PA with
+          | VTrue => L [A 1]
+          | VFalse => L [A 0]
+          | VPanic => L [A 2]
+          end
+      | _, _, _, _ => bad_case
+      end
+  | L [A 28; e; s; r; a; b; c_] =>
+      match d_bytes e, d_bytes s, d_bytes r, d_point a, d_bytes b, d_bytes c_ with
+      | Some eb, Some sb, Some rb, Some PA, Some Bs, Some Cs =>
+          e_bool (nut12_verify_blind_signature_dleq eb sb rb PA Bs Cs)
+      | _, _, _, _, _, _ => bad_case
+      end
+  | L [A 29; b] =>
+      match d_bytes b with
+      | Some bs => L [e_bytes (scalar_bytes (scalar_of_bytes bs))]
+      | None => bad_case
       end
   | _ => bad_case
   end.
